@@ -447,8 +447,14 @@ func graphErrItems(g *resolve.Graph) []string {
 	}
 	var out []string
 	for _, it := range strings.Split(g.Error, ",") {
-		out = append(out, strings.TrimPrefix(it, "unused bundled version "))
+		// "unused bundled version NAME VERSION": only the name and the version are observed
+		f := strings.Fields(it)
+		if len(f) >= 2 {
+			it = f[len(f)-2] + " " + f[len(f)-1]
+		}
+		out = append(out, it)
 	}
+	sort.Strings(out)
 	return out
 }
 
@@ -475,7 +481,8 @@ func observable(r npmRun) sx.V {
 	var ne []sx.V
 	for i, n := range g.Nodes {
 		for _, e := range n.Errors {
-			ne = append(ne, sx.L(sx.Int(idx[i]), sxVKey(n.Version), sxVKey(e.Req), sx.Int(nodeErrKind(e.Error))))
+			// the error text is not an observable: node and requirement only
+			ne = append(ne, sx.L(sx.Int(idx[i]), sxVKey(n.Version), sxVKey(e.Req)))
 		}
 	}
 	sxSort(ne)
@@ -896,8 +903,6 @@ var statKeys = []string{"tree_nodes", "max_depth", "nested", "bundled_nodes", "a
 
 // ---------------------------------------------------------------- handlers
 
-const npmFuel = 3000
-
 // npmTimeout bounds one resolution (the install loop is not known to terminate).
 const npmTimeout = 400 * time.Millisecond
 
@@ -938,7 +943,14 @@ func npmRec(arg sx.V) sx.V {
 	for _, k := range statKeys {
 		stats = append(stats, sx.Int(o.stats[k]))
 	}
-	cas := sx.L(sx.Int(npmFuel), sxVKey(root), sxAnswers(rec.vers), sxAnswers(rec.reqs), sxAnswers(rec.match), rec.semTable())
+	// Fuel for the model: the main loop pops at most one entry per installed node and per
+	// reused edge, so twice that bound is ample when the model agrees and keeps a model that
+	// does not terminate on this table from spinning.
+	fuel := 50
+	if first.status == "ok" {
+		fuel = 2*(len(first.tree)+len(first.g.Edges)) + 20
+	}
+	cas := sx.L(sx.Int(fuel), sxVKey(root), sxAnswers(rec.vers), sxAnswers(rec.reqs), sxAnswers(rec.match), rec.semTable())
 	verdict := sx.L(sx.Sym(first.status), sx.Bool(hasDerived), sx.L(o.viol...), sx.L(stats...))
 	return sx.L(verdict, sx.B(hex.EncodeToString([]byte(cas.String()))), sx.B(hex.EncodeToString([]byte(obs))))
 }
